@@ -55,7 +55,7 @@ func ZZ_C10_sync() {
 	m := zz.Param("rounds", 2)
 	npeers := zz.Param("peers", 2)
 	head := &common.Beacon{Round: 5, Signature: zz.Bytes("head.sig", 2)}
-	base := &zzBase{}
+	base := &zzBase{failAt: zz.Choose("store.fail_at", zz.Param("store_faults", 1)+0)} // transient fault on the k-th write
 	cbs := zzStack(nw, base, head)
 	clk := zzfake.NewClock(zzGenesis + 1000)
 	honest := zzHonestChain(nw, head, m)
@@ -138,6 +138,12 @@ func ZZ_C10_sync() {
 	zz.WhenStuck(cancel)
 	err := sm.Sync(ctx, RequestInfo{nodes: peers, upTo: upTo})
 	cancel()
+	if base.failAt > 0 && err != nil && anyHonest && !stalled {
+		// a transient storage fault made the attempt fail: the manager retries on the next request
+		zz.Tag("retry_after_transient_store_fault")
+		err = sm.Sync(context.Background(), RequestInfo{nodes: peers, upTo: upTo})
+		zz.Assert("retry_after_transient_fault_converges", err == nil)
+	}
 
 	pub := nw.group.PublicKey.Key()
 	last := head
@@ -150,9 +156,12 @@ func ZZ_C10_sync() {
 		zz.Assert("synced_not_beyond_target", b.Round <= upTo)
 		last = b
 	}
-	if anyHonest && !stalled {
+	if anyHonest && !stalled && base.failAt == 0 {
 		zz.Assert("honest_peer_means_success", err == nil)
 		zz.Assert("honest_peer_means_target_reached", last.Round == upTo)
+	}
+	if anyHonest && !stalled && base.failAt > 0 {
+		zz.Assert("target_reached_after_retry", last.Round == upTo)
 	}
 	// NB: peers that each lie about a different round can still jointly supply a verified chain, so
 	// "no fully honest peer" does not imply failure; unreachable peers do.
